@@ -107,6 +107,7 @@ type vfNet struct {
 	onWrite func(side int, raw []byte) // optional tap (e.g. crash-point injection); called without net.mu
 	snapFn  func(side int) *vfSnap
 	afterSettle func() // lock-step mode: runs on the pump goroutine after every settle
+	closeGrace time.Duration // injected yield delays (spec.Yield) stretch a write that was already on its way over virtual time
 	nDrop   int
 	nDup    int
 	nDelay  int
@@ -580,7 +581,7 @@ func (c *vfConn) Write(b []byte) (int, error) {
 	if c.closed {
 		// a Write that is already on its way when Close completes is harmless (it fails); one that starts
 		// at a later virtual instant means something is still trying to send
-		if c.closeDone && c.net.now() > c.closeT {
+		if c.closeDone && c.net.now() > c.closeT+c.net.closeGrace {
 			c.writesAfterClose++
 		}
 		c.mu.Unlock()
